@@ -34,6 +34,8 @@ def run(ctx):
     ctx.rule_text = 'one obligation per construction step'
     ctx.trusted = ['networkx find_cliques / minimum_spanning_tree / topological_sort', 'elimination yields a chordal graph; a maximum-weight '
                    'spanning tree of the clique graph of a chordal graph is a junction tree (theorems, not checked)']
+    from ._generic import stale_pivot
+    stale_pivot(ctx, ctx.repo.nfunc(JT, 'JunctionTree._make_tree'), 'tree-connected')
     check_graph(ctx)
     check_fill_in(ctx)
     check_tree_connected(ctx)
